@@ -91,3 +91,11 @@ pub fn shorten(s: &str, head: usize, tail: usize) -> String {
 pub fn spin_budget(len: usize) -> usize {
     16 * len + 4096
 }
+
+/// Leaves the case that is about to run in the file named by `VERIF_BREADCRUMB` (set by `./check`), so that a run the operating system or the
+/// allocator ABORTS — which no `catch_unwind` can intercept — can still be reported with the case that was running.
+pub fn breadcrumb(case: &crate::json::J) {
+    if let Ok(p) = std::env::var("VERIF_BREADCRUMB") {
+        let _ = std::fs::write(p, case.to_string());
+    }
+}
